@@ -4,7 +4,7 @@ use core::fmt::{self, Debug, Formatter};
 
 pub(crate) const MAX_PARAMS: usize = 32;
 
-#[derive(Default, Clone, PartialEq, Eq)]
+#[derive(Default, Clone)]
 pub struct Params {
     /// Number of subparameters for each parameter.
     ///
@@ -74,6 +74,17 @@ impl Params {
         self.len += 1;
     }
 }
+
+impl PartialEq for Params {
+    fn eq(&self, other: &Self) -> bool {
+        // Slots that aren't in use hold leftovers from earlier sequences
+        self.len == other.len
+            && self.current_subparams == other.current_subparams
+            && self.iter().eq(other.iter())
+    }
+}
+
+impl Eq for Params {}
 
 impl<'a> IntoIterator for &'a Params {
     type IntoIter = ParamsIter<'a>;
